@@ -538,9 +538,14 @@ ZSTDMT_serialState_reset(serialState_t* serialState,
         serialState->ldmState.loadedDictEnd = 0;
         if (dictSize > 0) {
             if (dictContentType == ZSTD_dct_rawContent) {
+                /* like ZSTD_loadDictionaryContent() : only the end of a huge dictionary is loaded,
+                 * so that its indices fit 32 bits */
+                size_t const maxDictSize = ZSTD_CURRENT_MAX - ZSTD_WINDOW_START_INDEX;
+                size_t const loadedSize = MIN(dictSize, maxDictSize);
                 BYTE const* const dictEnd = (const BYTE*)dict + dictSize;
-                ZSTD_window_update(&serialState->ldmState.window, dict, dictSize, /* forceNonContiguous */ 0);
-                ZSTD_ldm_fillHashTable(&serialState->ldmState, (const BYTE*)dict, dictEnd, &params.ldmParams);
+                BYTE const* const dictStart = dictEnd - loadedSize;
+                ZSTD_window_update(&serialState->ldmState.window, dictStart, loadedSize, /* forceNonContiguous */ 0);
+                ZSTD_ldm_fillHashTable(&serialState->ldmState, dictStart, dictEnd, &params.ldmParams);
                 serialState->ldmState.loadedDictEnd = params.forceWindow ? 0 : (U32)(dictEnd - serialState->ldmState.window.base);
             } else {
                 /* don't even load anything */
